@@ -518,6 +518,10 @@ impl Component for SysComp {
                             Ok(x) => c.window = x,
                             Err(_) => return "bad-op".into(),
                         },
+                        "br" => match v.parse::<u64>() {
+                            Ok(x) => c.bitrate.current_bitrate_bps = f64::from_bits(x),
+                            Err(_) => return "bad-op".into(),
+                        },
                         _ => return "bad-op".into(),
                     }
                 }
@@ -1242,6 +1246,13 @@ fn gen_case(rng: &mut Rng, idx: usize) -> Vec<String> {
         while now.saturating_sub(last_hk) >= 1000 {
             last_hk += 1000;
             let t = last_hk.min(now);
+            // measured-rate swings move the batch regime (4 / 16 / 32) at this tick, possibly while
+            // datagrams are still queued
+            if rng.chance(2, 5) {
+                let j = rng.below(n as u64);
+                let br: f64 = *rng.pick(&[100_000.0, 1_000_000.0, 1_000_000.0, 6_000_000.0, 6_000_000.0, 20_000_000.0]);
+                ops.push(format!("setlink {j} br={}", br.to_bits()));
+            }
             ops.push(format!("hk {t}"));
             ka_times.push(t);
             // the simulated receiver: echoes keepalives on links that are not black-holed and answers
